@@ -65,7 +65,13 @@ pub assume_specification[ String::truncate ](s: &mut String, new_len: usize)
     ensures new_len == 0 ==> final(s)@ == Seq::<char>::empty(),
             new_len >= encode_utf8(old(s)@).len() ==> final(s)@ == old(s)@,
             is_prefix(final(s)@, old(s)@),
-            encode_utf8(final(s)@).len() <= new_len || final(s)@ == old(s)@;
+            new_len < encode_utf8(old(s)@).len() ==> encode_utf8(final(s)@).len() == new_len,
+            // "Shortens this String to the specified length": what is kept is the LONGEST prefix that fits
+            forall|p: Seq<char>| #[trigger] is_prefix(p, old(s)@) && encode_utf8(p).len() <= new_len ==> p.len() <= final(s)@.len();
+/// UTF-8 fact (ASSUMED): an ASCII character is encoded as one byte, so a text that ends with one is one byte longer than the text without it.
+pub broadcast axiom fn axiom_ascii_suffix_one_byte(s: Seq<char>, c: char)
+    requires #[trigger] is_suffix(seq![c], s), (c as u32) < 128,
+    ensures encode_utf8(s.drop_last()).len() == encode_utf8(s).len() - 1;
 // cmp::min / cmp::max: "Compares and returns the minimum/maximum of two values."
 pub assume_specification<T: Ord>[ std::cmp::min::<T> ](a: T, b: T) -> (r: T)
     ensures r == if ord_le(a, b) { a } else { b };
